@@ -110,7 +110,7 @@ Print Assumptions C17_json_ignores_client.
 
 (* ---- 4. malformed patterns ---- *)
 
-(* the code as it is dies iff some IgnoreFileOrDirError pattern does not compile *)
+(* the code before the repair died iff some IgnoreFileOrDirError pattern did not compile *)
 Theorem C17_init_faults_iff :
   forall re_ok c local_run,
     init false re_ok None c local_run = Fault Regexp <-> forallb re_ok (c_ignore_err c) = false.
@@ -119,36 +119,41 @@ Print Assumptions C17_init_faults_iff.
 
 Theorem C17_no_fault_if_patterns_ok :
   forall re_ok fixed j c local_run cs,
-    session_patterns_ok re_ok fixed j c cs = true -> local_ok j c local_run = true ->
+    session_patterns_ok re_ok fixed j c cs = true -> fixed || local_ok j c local_run = true ->
     exists s, session fixed re_ok j c local_run cs = Ok s.
 Proof. exact session_no_fault. Qed.
 Print Assumptions C17_no_fault_if_patterns_ok.
 
-(* the repaired variant (regexp.Compile; a malformed pattern counts as literal text only) never faults - unless the
-   client says LocalRun with the master switch off (next theorem); the filter law above is stated for both variants *)
+(* the repaired code now in /repo (fix: commits 0afb56d regexp.Compile - a malformed pattern counts as literal text only -
+   and c65defa IgnoreVarMap allocated at start-up) never faults, whatever the settings, by any route *)
 Theorem C17_fixed_never_faults :
-  forall re_ok j c local_run cs, local_ok j c local_run = true -> exists s, session true re_ok j c local_run cs = Ok s.
+  forall re_ok j c local_run cs, exists s, session true re_ok j c local_run cs = Ok s.
 Proof. exact fixed_never_faults. Qed.
 Print Assumptions C17_fixed_never_faults.
 
-(* initializationOptions {LocalRun: true, AllEnable: false}: handleNotJSONCheckFlag returns before it allocates
-   IgnoreVarMap, InsertIngoreSystemModule then writes into the nil map: initialize dies *)
-Theorem C17_local_master_off_faults :
-  forall re_ok fixed c fl,
-    c_flags c = false :: fl -> compile_all fixed re_ok (c_ignore_err c) = true ->
-    init fixed re_ok None c true = Fault NilDeref.
+(* ... and the repaired variant IS the code in /repo: derived by the translator from global_conf.go on every run *)
+Theorem C17_code_is_repaired_variant : fixed_regexp_now = true.
+Proof. exact tie_repaired_now. Qed.
+Print Assumptions C17_code_is_repaired_variant.
+
+(* before the repair: initializationOptions {LocalRun: true, AllEnable: false}: handleNotJSONCheckFlag returned before it
+   allocated IgnoreVarMap, InsertIngoreSystemModule then wrote into the nil map: initialize died *)
+Theorem C17_local_master_off_faulted :
+  forall re_ok c fl,
+    c_flags c = false :: fl -> compile_all false re_ok (c_ignore_err c) = true ->
+    init false re_ok None c true = Fault NilDeref.
 Proof. exact local_master_off_faults. Qed.
-Print Assumptions C17_local_master_off_faults.
+Print Assumptions C17_local_master_off_faulted.
 
 (* ---- 5. refutations of C17_full on the faithful model (each replayed on the real server: known_findings/C17.json) ---- *)
 
-(* client option IgnoreFileOrDirError ["("]: initialize dies; the repaired variant survives *)
-Theorem C17_bad_regex_refuted :
+(* client option IgnoreFileOrDirError ["("]: initialize died before the repair; the repaired code survives *)
+Theorem C17_bad_regex_repaired :
   client_wf w_bad_regex = true
   /\ session false re_no_paren None w_bad_regex false [] = Fault Regexp
   /\ is_ok (session true re_no_paren None w_bad_regex false []) = true.
 Proof. vm_compute. repeat split. Qed.
-Print Assumptions C17_bad_regex_refuted.
+Print Assumptions C17_bad_regex_repaired.
 
 (* switches 2, 3, 10, 11, 12 off and 9 on: a type-9 diagnostic, not excluded by the intent, is not shown *)
 Theorem C17_special_gate_refuted :
@@ -201,14 +206,14 @@ Theorem C17_dup_file_rule_refuted :
 Proof. vm_compute. repeat split. Qed.
 Print Assumptions C17_dup_file_rule_refuted.
 
-(* the master switch "removes all" - with LocalRun it removes the server (both variants) *)
-Theorem C17_master_off_local_refuted :
+(* the master switch "removes all" - with LocalRun it used to remove the server; repaired *)
+Theorem C17_master_off_local_repaired :
   client_wf w_master_off = true
   /\ session false re_all None w_master_off true [] = Fault NilDeref
-  /\ session true re_all None w_master_off true [] = Fault NilDeref
+  /\ is_ok (session true re_all None w_master_off true []) = true
   /\ is_ok (session false re_all None w_master_off false []) = true.
 Proof. vm_compute. repeat split. Qed.
-Print Assumptions C17_master_off_local_refuted.
+Print Assumptions C17_master_off_local_repaired.
 
 (* ---- non-vacuity: a configuration with switches off, a silenced folder and an ignored file meets the guard of
    C17_filter_law on diagnostics of six kinds, and the law then hides three of them and shows three ---- *)
